@@ -115,6 +115,12 @@ def kinds(core_only: bool = False, raisers: bool = True):
             ('tc_std_rf', 1, lambda x: P('try_catch_std_return_false', x), 'raise'),
             ('tc_any_rn', 1, lambda x: P('try_catch_any_raise_nested', x), 'raise'),
             ('tc_std_rn', 1, lambda x: P('try_catch_std_raise_nested', x), 'raise'),
+            # the variadic primary templates forward the exception type to the one-rule specialisation: separate code
+            ('tcrn2', 2, lambda x, y: P('try_catch_raise_nested', x, y), 'raise'),
+            ('tc_any_rf2', 2, lambda x, y: P('try_catch_any_return_false', x, y), 'raise'),
+            ('tc_std_rf2', 2, lambda x, y: P('try_catch_std_return_false', x, y), 'raise'),
+            ('tc_any_rn2', 2, lambda x, y: P('try_catch_any_raise_nested', x, y), 'raise'),
+            ('tc_std_rn2', 2, lambda x, y: P('try_catch_std_raise_nested', x, y), 'raise'),
         ]
     return ks
 
@@ -192,7 +198,16 @@ def systematic(rng: random.Random, gid_prefix: str, kind_filter: Callable[[str, 
         extra = [a for a in assigns if a not in keep][:max(0, probe_cap - len(keep))]
         for a in keep + extra:
             combos.append((kname, build, a))
+    # kind coverage first: one assignment per kind (kinds in random order), then the remaining assignments shuffled
     rng.shuffle(combos)
+    first, rest, seen_k = [], [], set()
+    for cb in combos:
+        if cb[0] not in seen_k:
+            seen_k.add(cb[0])
+            first.append(cb)
+        else:
+            rest.append(cb)
+    combos = first + rest
     if max_grammars is not None:
         combos = combos[:max_grammars]
     out = []
